@@ -3,7 +3,7 @@
 // Obligation read off the property: "The label predicted for any row ... is a class maximising log prior plus the sum
 // of per-feature log-likelihoods computed from those statistics."  predict is generic over the distribution; the
 // harness distribution `TableNB` answers prior / log_likelihood from small tables chosen by Kani:
-//   * prior(c) is one of PRI = {1, 1/2, 1/4}; `f64::ln` is stubbed by the table LNP = {0, -1, -2} on exactly these values
+//   * prior(c) is one of PRI = {1, 1/2, 1/4, 0}; `f64::ln` is stubbed by the table LNP = {0, -1, -2, -inf} on exactly these values
 //     (CBMC has no exact ln); the harness computes its expected scores from LNP directly, not through the stub;
 //   * log_likelihood(c, row) = LL[row id][c], each entry one of {-3, -1, 0, 2} (ties are reachable, also after adding ln prior);
 //     the row id is column 0 of the row handed over by predict (so a predict that passes the wrong row is seen);
@@ -28,6 +28,8 @@ fn c11_ln_table(x: f64) -> f64 {
         -1.0
     } else if x == 0.25 {
         -2.0
+    } else if x == 0.0 {
+        f64::NEG_INFINITY
     } else {
         // not reached by the harness distribution on the unchanged code; an unknown value (NaN included) otherwise
         kani::any()
@@ -86,9 +88,14 @@ macro_rules! predict_harness {
                 } else if s == 1 {
                     prior[c] = 0.5;
                     lnp[c] = -1.0;
-                } else {
+                } else if s == 2 {
                     prior[c] = 0.25;
                     lnp[c] = -2.0;
+                } else {
+                    // a class with prior 0 (an empty class of the categorical variant, or a user-supplied zero prior):
+                    // its score is -inf, it must neither win against a class with a finite score nor hide later classes
+                    prior[c] = 0.0;
+                    lnp[c] = f64::NEG_INFINITY;
                 }
                 classes.push(C11_LABELS[c]);
                 let mut i = 0;
